@@ -53,6 +53,9 @@ type Step struct {
 	// join: raft traffic to the joiner is lost until the members have compacted their logs past its join entry, so the
 	// joiner (which has the member list from the handshake) gets its whole membership log as a snapshot
 	Behind bool `json:"behind,omitempty"`
+	// remove: one other member misses the log replication of the removal (heartbeats still reach it); the removed node
+	// then restarts and announces itself again - same address - through that lagging member
+	Rejoin bool `json:"rejoin,omitempty"`
 }
 
 type Case struct {
@@ -79,6 +82,8 @@ func genCase(t *rapid.T) Case {
 				s.Cut = rapid.SampledFrom([]int{-1, 1, 2, 3}).Draw(t, "cut")
 			}
 			s.Behind = rapid.IntRange(0, 3).Draw(t, "behind") == 0
+		case SRemove:
+			s.Rejoin = rapid.IntRange(0, 2).Draw(t, "rejoin") == 0
 		case STick:
 			s.N = rapid.SampledFrom([]int{1, 3, 12, 25}).Draw(t, "n")
 		case SLinkTape:
@@ -344,6 +349,61 @@ func check(c Case, o *pbt.Obs) *pbt.Failure {
 	}
 	// applied reports whether the membership change has been applied by raft on every live in-member
 	// (judged on raft's own configuration, not on the address book, which is what the oracle checks later)
+	tapesActive := false // a link decision tape was installed (tapes stay until the final heal)
+	// calm describes the cluster right before a membership change is requested through via: a leader exists, via knows
+	// it, the leader has no unapplied membership change and no link fault is active - none of the ways in which raft
+	// drops a proposed membership change (known finding C20:ack-before-commit) applies
+	type calmState struct {
+		ok   bool
+		term uint64
+	}
+	calm := func(via *member) calmState {
+		if tapesActive {
+			return calmState{}
+		}
+		var leader *member
+		for _, x := range w.ms {
+			if x.up && x.joined && !x.removed && x.zero.VerifStatus().RaftState == etcdRaft.StateLeader {
+				if leader != nil {
+					return calmState{}
+				}
+				leader = x
+			}
+		}
+		if leader == nil {
+			return calmState{}
+		}
+		lst := leader.zero.VerifStatus()
+		vst := via.zero.VerifStatus()
+		if vst.Lead != leader.id || vst.Term != lst.Term || leader.mon.ConfPending(lst.Applied) || lst.Applied < lst.Commit {
+			return calmState{}
+		}
+		// every member of the leader's configuration is a live, reachable process (a join that was given up on can still
+		// have landed and left a dead member in the configuration: no quorum, nothing commits)
+		for _, id := range leader.mon.MembersAt(lst.Applied) {
+			live := false
+			for _, x := range w.ms {
+				if x.id == id && x.up {
+					live = true
+				}
+			}
+			if !live {
+				return calmState{}
+			}
+		}
+		return calmState{true, lst.Term}
+	}
+	stillCalm := func(c calmState) bool {
+		if !c.ok || tapesActive {
+			return false
+		}
+		for _, x := range w.ms {
+			if x.up && x.zero.VerifStatus().Term != c.term {
+				return false
+			}
+		}
+		return true
+	}
 	var lagging *member // a joiner whose raft links are still cut: it cannot have applied anything
 	applied := func(id uint64, present bool) bool {
 		for _, x := range inMembers() {
@@ -421,6 +481,7 @@ func check(c Case, o *pbt.Obs) *pbt.Failure {
 			}
 			// the joiner asks `via`; with a lossy handshake it retries once through the same member, as an operator would
 			// (the RPC blocks on the member while it knows no leader: logical time must keep flowing meanwhile)
+			before := calm(via)
 			ctx, cancel := context.WithTimeout(context.Background(), 2*time.Second)
 			err := w.whileTicking(func() error {
 				e := m.nm.Join(ctx, []string{via.addr})
@@ -441,6 +502,9 @@ func check(c Case, o *pbt.Obs) *pbt.Failure {
 			if err == nil {
 				m.joined = true
 				if !settleChange(m.id, true) {
+					if stillCalm(before) && s.Cut == 0 {
+						return pbt.Failf("C20:acknowledged-change-never-happened", "step %d: the join of member %d through member %d was acknowledged in a calm cluster (stable leader known to the member asked, no unapplied membership change, no link faults) and is still not applied after 600 ticks; history: %s", si, m.i, via.i, c.String())
+					}
 					unknown[m.id] = true
 					o.Label("acknowledged-change-did-not-settle")
 				}
@@ -494,14 +558,90 @@ func check(c Case, o *pbt.Obs) *pbt.Failure {
 			if via == nil {
 				continue
 			}
-			if err := w.whileTicking(func() error { return via.nm.RemoveNode(m.id) }); err == nil {
+			// the lagging member of a remove-then-rejoin: an in-member that is neither the removed node, nor the member
+			// asked, nor the leader
+			var lagger *member
+			if s.Rejoin {
+				for _, x := range ins {
+					if x != m && x != via && x.zero.VerifStatus().RaftState != etcdRaft.StateLeader {
+						lagger = x
+						break
+					}
+				}
+			}
+			if lagger != nil {
+				for _, x := range w.ms {
+					if x != lagger {
+						w.net.SetDropApp(x.id, lagger.id, true)
+					}
+				}
+				lagging = lagger
+			}
+			before := calm(via)
+			err := w.whileTicking(func() error { return via.nm.RemoveNode(m.id) })
+			if err == nil {
 				m.removed = true
 				if !settleChange(m.id, false) {
+					if stillCalm(before) && lagger == nil {
+						return pbt.Failf("C20:acknowledged-change-never-happened", "step %d: the removal of member %d through member %d was acknowledged in a calm cluster (stable leader known to the member asked, no unapplied membership change, no link faults) and is still not applied after 600 ticks; history: %s", si, m.i, via.i, c.String())
+					}
 					unknown[m.id] = true
 					o.Label("acknowledged-change-did-not-settle")
 				}
 				delete(model, m.id)
 				o.Label("removal-acknowledged")
+			} else {
+				// not acknowledged is not "did not happen": a request still blocked in the member asked (it knows no leader)
+				// can be proposed once the harness has given up on it
+				unknown[m.id] = true
+				o.Label("removal-not-acknowledged")
+			}
+			if lagger != nil {
+				rejoined := false
+				if err == nil && !unknown[m.id] && m.up && lagger.conn.Nodes()[m.id] == m.addr {
+					// the removed node restarts over its old store and announces itself again through the lagging member
+					w.kill(m)
+					time.Sleep(200 * time.Microsecond)
+					if e := w.start(m, false); e == errListen {
+						o.Inconclusive("port-of-restarting-member-taken")
+						return nil
+					} else if e != nil {
+						return pbt.Failf("C20:restart-fails", "step %d: removed member %d does not come up again: %v", si, m.i, e)
+					}
+					viaCalm := calm(lagger)
+					ctx, cancel := context.WithTimeout(context.Background(), 2*time.Second)
+					e := w.whileTicking(func() error { return m.nm.Join(ctx, []string{lagger.addr}) })
+					cancel()
+					// the loss ends
+					for _, x := range w.ms {
+						w.net.SetDropApp(x.id, lagger.id, false)
+					}
+					lagging = nil
+					if e == nil {
+						rejoined = true
+						m.removed = false
+						o.Label("rejoin-through-lagging-member-acknowledged")
+						if !settleChange(m.id, true) {
+							if stillCalm(viaCalm) {
+								return pbt.Failf("C20:acknowledged-change-never-happened", "step %d: member %d, removed while member %d missed the log replication, restarted and announced itself again (same address) through that lagging member; the join was acknowledged in a calm cluster and is still not applied anywhere 600 ticks after the loss ended; member %d lists %s; history: %s", si, m.i, lagger.i, lagger.i, nodesString(lagger.conn.Nodes()), c.String())
+							}
+							unknown[m.id] = true
+							o.Label("acknowledged-change-did-not-settle")
+						}
+						model[m.id] = m.addr
+					}
+				}
+				for _, x := range w.ms {
+					w.net.SetDropApp(x.id, lagger.id, false)
+				}
+				lagging = nil
+				if !rejoined {
+					// let the lagging member catch up before the history goes on
+					for r := 0; r < 600 && err == nil && !unknown[m.id] && !applied(m.id, false); r++ {
+						w.tickAll(1)
+						time.Sleep(100 * time.Microsecond)
+					}
+				}
 			}
 		case SRestart:
 			if !m.joined || m.removed || !m.up {
@@ -538,6 +678,7 @@ func check(c Case, o *pbt.Obs) *pbt.Failure {
 			b := w.ms[s.B%maxMembers]
 			if b != m {
 				w.net.SetLink(m.id, b.id, &sim.Link{Tape: s.Tape})
+				tapesActive = true
 			}
 		}
 		time.Sleep(300 * time.Microsecond)
@@ -628,7 +769,14 @@ func check(c Case, o *pbt.Obs) *pbt.Failure {
 			o.Inconclusive("no-leader-at-quiescence")
 			return nil
 		}
-		return pbt.Failf("C20:membership-view-differs", "after quiescence: %s; model %s; history: %s", diff, nodesString(model), c.String())
+		var views []string
+		for _, x := range w.ms {
+			if x.up {
+				st := x.zero.VerifStatus()
+				views = append(views, fmt.Sprintf("member %d{joined=%v removed=%v term=%d lead=%d state=%v commit=%d applied=%d conf=%v store-members=%v lists=%s}", x.i, x.joined, x.removed, st.Term, st.Lead, st.RaftState, st.Commit, st.Applied, x.zero.VerifConfNodes(), x.mon.MembersAt(st.Applied), nodesString(x.conn.Nodes())))
+			}
+		}
+		return pbt.Failf("C20:membership-view-differs", "after quiescence: %s; model %s; history: %s ;; %s", diff, nodesString(model), c.String(), strings.Join(views, " | "))
 	}
 	if len(model) >= 2 && (restartsAfterJoin > 0 || lossyHandshakes > 0) {
 		o.NonTrivial()
@@ -647,7 +795,7 @@ func check(c Case, o *pbt.Obs) *pbt.Failure {
 func TestMembershipConverges(t *testing.T) {
 	pbt.Run(t, pbt.Prop[Case]{
 		ID: "C20", Name: "TestMembershipConverges",
-		Rule:    "rapid-generated histories on up to 5 members, each with a real zero RaftGroup (+ shared group), NodesManager and Conn over its own Badger store; joins run the repository's NodesManager.Join against a real gRPC NodesManager service on a loopback port of the member asked (optionally breaking the reply stream after 0-2 nodes, with one retry), joins whose raft traffic is lost until the members have compacted their logs (the joiner catches up through a snapshot), removals through any member, restarts of members (new Conn/transport/group over the same store, same address), zero-group snapshots (log compaction) through the loop hook on any member at any point, raft messages through the simulated network with per-link decision tapes, logical ticks; oracle after healing and bounded quiescence: every live member whose join was acknowledged lists every acknowledged, not removed member with the address it announced, and lists no member whose removal was acknowledged; the membership stored with every local snapshot equals the membership at its index (stored snapshot's members + membership entries up to it), durable term/commit never go back; no log.Fatal in a zero group; non-trivial = >=2 members and (a restart after a join or a lossy handshake); distinct = distinct case JSON",
+		Rule:    "rapid-generated histories on up to 5 members, each with a real zero RaftGroup (+ shared group), NodesManager and Conn over its own Badger store; joins run the repository's NodesManager.Join against a real gRPC NodesManager service on a loopback port of the member asked (optionally breaking the reply stream after 0-2 nodes, with one retry), joins whose raft traffic is lost until the members have compacted their logs (the joiner catches up through a snapshot), removals through any member (optionally while one other member misses the log replication, followed by the removed node restarting and announcing itself again through that lagging member), restarts of members (new Conn/transport/group over the same store, same address), zero-group snapshots (log compaction) through the loop hook on any member at any point, raft messages through the simulated network with per-link decision tapes, logical ticks; oracle after healing and bounded quiescence: every live member whose join was acknowledged lists every acknowledged, not removed member with the address it announced, and lists no member whose removal was acknowledged; the membership stored with every local snapshot equals the membership at its index (stored snapshot's members + membership entries up to it), durable term/commit never go back; an acknowledged change requested in a calm cluster (stable leader known to the member asked, no unapplied membership change, no link faults) is applied within 600 ticks; no log.Fatal in a zero group; non-trivial = >=2 members and (a restart after a join or a lossy handshake); distinct = distinct case JSON",
 		Gen:     genCase,
 		Check:   check,
 		Journal: true,
